@@ -71,7 +71,7 @@ def build_traces(path, tier, seed):
         recs.append(rec)
         meta[tid] = m
 
-    ncall = 40 if tier == "quick" else 150        # (thorough: ~130 k validated samples; the trace file stays below 60 MB)
+    ncall = 40 if tier == "quick" else 300        # (thorough: ~130 k validated samples; the trace file stays below 60 MB)
     nmax = 400 if tier == "quick" else 3000
     for i in range(ncall):
         n = gen.length(rng, 2, nmax) if not (tier == "thorough" and i in (5, 77)) else 5000
@@ -140,7 +140,7 @@ def eqsig_obj(m, dt, periods, xi):
 def run(tier, seed):
     rep = Report("C01", tier, seed)
     wd = workdir("C01")
-    maxlen = 4 if tier == "quick" else 5
+    maxlen = 4 if tier == "quick" else 6
     tab = os.path.join(wd, "table.txt")
     with warnings.catch_warnings():
         warnings.simplefilter("ignore")
